@@ -423,6 +423,7 @@ def main(prop, argv):
     unknown = 0
     unreproduced = 0
     verified = 0
+    attempted = 0
     known_seen = []
     for sig, occ in sorted(agg.by_sig.items()):
         if sig in known_open:
@@ -431,13 +432,27 @@ def main(prop, argv):
                 prop, known_open[sig].get('what', ''), sig, len(occ)))
             continue
         unknown += 1
-        if unknown > MAX_REPORTED:
+        case, v, _ = occ[0]
+        if attempted >= MAX_REPORTED:
             print('signature (not minimised, over the reporting cap): %s (%d occurrences)' % (
                 sig, len(occ)))
             if rc == 0:
                 rc = 1
             continue
-        case, v, _ = occ[0]
+        # cheap first look: does the case show the signature when it is run on its own in this
+        # process?  If not, the observation depended on what earlier cases had left behind in
+        # the worker process - it is reported as such and does not use up the reporting cap.
+        try:
+            r0 = mod.run_case(case)
+        except BaseException:  # pylint: disable=broad-except
+            _close_leftovers()
+            r0 = {}
+        if not any(vv['sig'] == sig for vv in r0.get('violations', [])):
+            print('UNREPRODUCED signature %s (%d occurrences): not seen again when the case is '
+                  'run on its own' % (sig, len(occ)))
+            unreproduced += 1
+            continue
+        attempted += 1
         small = minimise(mod, case, sig)
         r2 = mod.run_case(small)
         det = v.get('detail', '')
@@ -471,8 +486,15 @@ def main(prop, argv):
         print('VIOLATION property=%s replay=%s' % (prop, path))
         if rc == 0:
             rc = 1
-    if unreproduced and not verified and rc == 0:
-        rc = 2      # nothing but unreproducible observations: a harness problem, not a verdict
+    if unreproduced and not verified:
+        # nothing but unreproducible observations (and possibly unverified ones over the
+        # reporting cap): a harness problem, not a verdict - never exit 1 without a VIOLATION line
+        rc = 2
+    if verified:
+        # a violation that replays in a fresh interpreter is a verdict, whatever else went wrong
+        # in other cases of the run (a change that breaks the property often also makes some
+        # cases run into the step budget)
+        rc = 1
     if not args.no_evidence and rc != 2:
         write_evidence(prop, mod, tier, args.seed, agg, complete, wall, unknown, known_seen, jobs)
     print('%s: %d evaluations, %d distinct non-trivial, %d unknown signatures, %d known, '
